@@ -30,6 +30,8 @@ var pool = []poolItem{
 	{"fix4", `4`},
 	{"fix8", `8`},
 	{"fix2e62", `4611686018427387904`},
+	{"fixmax", `9223372036854775807`},
+	{"fixmin", `-9223372036854775808`},
 	{"big2e64", `18446744073709551616`},
 	{"ratio", `1/2`},
 	{"dbl", `1.5d0`},
@@ -55,6 +57,15 @@ var pool = []poolItem{
 	{"bitv", `(make-array 3 :element-type 'bit :initial-contents '(1 0 1))`},
 	{"octets", `(string-to-octets "ab")`},
 	{"fpvec", `(make-array 3 :fill-pointer 1 :adjustable t)`},
+	// ill-formed but constructible (on trees where make-array / adjust-array do not check the fill pointer,
+	// otherwise well-formed stand-ins): fill pointer beyond the length, an array that was grown and shrunk again
+	{"fpover", `(or (ignore-errors (make-array 3 :fill-pointer 7)) (make-array 3 :fill-pointer 3))`},
+	{"fpshrunk", `(let ((v (make-array 2 :fill-pointer 0 :adjustable t))) (vector-push-extend 1 v) (vector-push-extend 2 v) (vector-push-extend 3 v) (ignore-errors (adjust-array v 1)) v)`},
+	{"adjarr", `(let ((v (make-array 2 :adjustable t :initial-contents '(1 2)))) (adjust-array v 6) (adjust-array v 1) v)`},
+	// bit-vectors of equal length made by different constructors (they allocate different byte counts)
+	{"bvcoerce4", `(coerce '(1 1 1 1) 'bit-vector)`},
+	{"bvfixed8", `(make-array 8 :element-type 'bit :adjustable nil)`},
+	{"bvread9", `#*101010101`},
 	{"hash", `(let ((h (make-hash-table))) (setf (gethash 'a h) 1) h)`},
 	{"pkg", `(find-package 'c09-pkg)`},
 	{"sin0", `(make-string-input-stream "")`},
